@@ -502,7 +502,9 @@ def run_case(case, src, remote, tmp, wall_timeout=60):
         try:
             await client.upload(source, case["dst"], write_into=case["wi"], block_size=case["bs"])
             obs["upload_exc"] = None
-        except (aioftp.StatusCodeError, aioftp.PathIOError, OSError, ValueError) as e:
+        except Runaway:
+            raise
+        except Exception as e:  # whatever the client raises is an observation, not a harness failure
             obs["upload_exc"] = exc_name(e)
         t1 = remote_now()
         obs["t1"] = t1
@@ -512,7 +514,9 @@ def run_case(case, src, remote, tmp, wall_timeout=60):
         try:
             items = await client.list(lst, recursive=True)
             obs["list"] = sorted((str(p), info["type"]) for p, info in items)
-        except (aioftp.StatusCodeError, aioftp.PathIOError, KeyError, ValueError) as e:
+        except Runaway:
+            raise
+        except Exception as e:  # whatever the client raises is an observation, not a harness failure
             obs["list"] = exc_name(e)
         # ---- download (a file written "into" the empty destination has no name: use write_into=False there)
         dl_is_file = isinstance(sub(t1, resolve(cwdp, dl)), bytes)
@@ -520,17 +524,26 @@ def run_case(case, src, remote, tmp, wall_timeout=60):
         try:
             await client.download(dl, lpath(case["ldst"]), write_into=obs["lwi"], block_size=case["bs"])
             obs["download_exc"] = None
-        except (aioftp.StatusCodeError, aioftp.PathIOError, OSError, ValueError) as e:
+        except Runaway:
+            raise
+        except Exception as e:  # whatever the client raises is an observation, not a harness failure
             obs["download_exc"] = exc_name(e)
         obs["local1"] = local_now()
         # ---- remove
         try:
             await client.remove(rm)
             obs["remove_exc"] = None
-        except (aioftp.StatusCodeError, aioftp.PathIOError, OSError, ValueError) as e:
+        except Runaway:
+            raise
+        except Exception as e:  # whatever the client raises is an observation, not a harness failure
             obs["remove_exc"] = exc_name(e)
         obs["t2"] = remote_now()
-        await client.quit()
+        try:
+            await client.quit()
+        except Runaway:
+            raise
+        except Exception as e:  # a desynchronised control channel after a failed walk: an observation
+            obs["quit_exc"] = exc_name(e)
         await server.close()
 
     try:
@@ -789,7 +802,9 @@ def known(ctx):
             obs = run_case(case, src, {}, tmp)
             dst2 = pathlib.PurePosixPath(dst) / ("" if wi else "foo")
             want = graft_oracle({}, resolve([], str(dst2)), src)
-            if obs["upload_exc"] is None and canon(obs["t1"]) != canon(want):
+            # F1 itself, not just any misplacement: the children are under cwd/<last component>
+            if (obs["upload_exc"] is None and canon(obs["t1"]) != canon(want)
+                    and canon(obs["t1"]) == canon(defect_prediction(case, src, {}, []))):
                 ctx.known_reproduced(ctx.kf[0]["id"], f"upload('foo', {dst!r}, write_into={wi}) -> {show(obs['t1'])}")
     finally:
         shutil.rmtree(tmp, ignore_errors=True)
